@@ -9,6 +9,7 @@ import Emu.Proofs.Filter
 import Emu.Proofs.Regex
 import Emu.Proofs.Interleave
 import Emu.Bt.Server
+import Emu.Proofs.LeafTie.ValidateFilter
 
 namespace Emu.Props.C05
 open Emu Emu.Bt Emu.Proofs.Filter Emu.Proofs.Regex
@@ -179,5 +180,16 @@ example :
     let r : Row := ⟨[107], [⟨[102], [⟨[97], [⟨2000, [1], []⟩, ⟨1000, [2], []⟩]⟩, ⟨[99], [⟨1000, [3], []⟩]⟩]⟩]⟩
     (filterRow 0 (.chain [.qualRegex (some (.alt (.byte 97) (.byte 98))), .colLimit 1]) r).2.flat
       = [([102], [97], ⟨2000, [1], []⟩)] := by decide
+
+/-! ### Tie T1: the repository's own text of the filter validation
+
+`Emu.Generated.Leaf.validateFilter` is `validateFilter` (bttest/validation.go) — the type switch over
+the RowFilter oneof with its checks and its recursion into chains, interleaves and conditions — read
+off the Go text by `factx` on every run; it is the Model's `validFilter` (the function
+`invalid_filter_rejected` and `validFilters_iff` above are about) for EVERY filter tree. -/
+
+theorem source_validateFilter_is_the_models (f : Filter) :
+    Emu.Generated.Leaf.validateFilter f = validFilter f :=
+  Emu.Proofs.LeafTie.validateFilter_tie f
 
 end Emu.Props.C05
